@@ -101,6 +101,9 @@ pub fn haversine_m(lat1: f64, lon1: f64, lat2: f64, lon2: f64) -> f64 {
 /// Longitude normalised to [-180, 180).
 pub fn destination(lat: f64, lon: f64, bearing: f64, dist_m: f64) -> (f64, f64) {
     let d = dist_m / EARTH_R_M;
+    // starting exactly at a pole the longitude term is atan2(~1e-17, ~1e-17): start 111 m away from it instead, so
+    // that a generated track is one smooth great circle (a generator that teleports would be a false alarm)
+    let lat = lat.clamp(-89.999, 89.999);
     let (p1, l1, b) = (lat.to_radians(), lon.to_radians(), bearing.to_radians());
     let p2 = (p1.sin() * d.cos() + p1.cos() * d.sin() * b.cos()).clamp(-1.0, 1.0).asin();
     let l2 = l1 + (b.sin() * d.sin() * p1.cos()).atan2(d.cos() - p1.sin() * p2.sin());
